@@ -36,7 +36,10 @@ NOISE_REPS = ((0, 0), (-1, 2), (2, -1))
 
 def scope(tier):
     n = 8 if tier == "quick" else 12
-    return dict(max_width=n, max_height=n, representations=list(KS),
+    return dict(max_width=n, max_height=n,
+                narrow="1..4 x %d..%d and transposed" % (
+                    n + 1, 12 if tier == "quick" else 24),
+                representations=list(KS),
                 random="all outcomes (menu of 3 values per random() draw, "
                        "every randint value)",
                 hexagon_radius=12 if tier == "quick" else 20)
@@ -46,6 +49,12 @@ def shards(tier):
     n = scope(tier)["max_width"]
     out = [dict(kind="torus", w=w, h=h) for w in range(1, n + 1)
            for h in range(1, n + 1)]
+    # narrow tori (spiral paths need a side much longer than the other)
+    m = 12 if tier == "quick" else 24
+    for a in (1, 2, 3, 4):
+        for b in range(n + 1, m + 1):
+            out.append(dict(kind="torus", w=a, h=b, narrow=1))
+            out.append(dict(kind="torus", w=b, h=a, narrow=1))
     out.append(dict(kind="mesh"))
     out.append(dict(kind="links"))
     out.append(dict(kind="hexagons"))
@@ -96,6 +105,14 @@ def selftest():
     t = torus_dist(4, 4, (0, 0))
     assert t[(3, 3)] == 1 and t[(2, 2)] == 2 and t[(3, 1)] == 2
     assert torus_dist(1, 1, (0, 0)) == {(0, 0): 0}
+
+
+def guarded(fn, *a):
+    """Exceptions of the code under test are observations, not crashes."""
+    try:
+        return fn(*a)
+    except Exception as e:
+        return "%s: %s" % (type(e).__name__, e)
 
 
 def rep(c, k):
@@ -155,10 +172,12 @@ def check_ldf(acc, vector, start, w, h, case):
         acc.evaluations += 1
         c = dict(case, fn="ldf", vector=list(vector), start=list(start),
                  choices=choices)
-        if len(path) != hops:
+        if not isinstance(path, list) or len(path) != hops:
             acc.violation(dict(kind="ldf_length"), c,
                           "longest_dimension_first%r from %r: %d hops, "
-                          "vector has %d" % (vector, start, len(path), hops))
+                          "vector has %d" % (vector, start, len(path) if
+                                             isinstance(path, list) else -1,
+                                             hops) + " " + repr(path)[:200])
             return
         pos = tuple(start)
         for d, nxt in path:
@@ -180,7 +199,8 @@ def check_ldf(acc, vector, start, w, h, case):
         seen_orders.add(tuple(d for d, _ in path))
 
     with_owned_random(
-        lambda: longest_dimension_first(vector, start, w, h), judge, acc)
+        lambda: guarded(longest_dimension_first, vector, start, w, h),
+        judge, acc)
     # with ties between non-zero dimensions several orders must be reachable
     mags = sorted(abs(c) for c in vector if c)
     if len(mags) >= 2 and mags[-1] == mags[-2] and len(seen_orders) < 2:
@@ -192,7 +212,7 @@ def check_ldf(acc, vector, start, w, h, case):
     acc.outcome("ldf_orders=%d" % len(seen_orders))
 
 
-def run_torus(w, h, tier, acc):
+def run_torus(w, h, tier, acc, narrow=False):
     from rig import geometry
     chips = [(x, y) for x in range(w) for y in range(h)]
     for s in chips:
@@ -207,7 +227,10 @@ def run_torus(w, h, tier, acc):
                     if s != d:
                         acc.nontrivial += 1
                     acc.evaluations += 1
-                    got = geometry.shortest_torus_path_length(s3, d3, w, h)
+                    try:
+                        got = geometry.shortest_torus_path_length(s3, d3, w, h)
+                    except Exception as e:
+                        got = "%s: %s" % (type(e).__name__, e)
                     if got != truth:
                         acc.violation(
                             dict(kind="torus_length"),
@@ -221,7 +244,7 @@ def run_torus(w, h, tier, acc):
                     def judge(v, choices):
                         acc.evaluations += 1
                         c = dict(case, fn="torus_path", choices=choices)
-                        ok = (len(v) == 3 and
+                        ok = (isinstance(v, tuple) and len(v) == 3 and
                               sum(abs(x) for x in v) == truth)
                         if ok:
                             px, py = proj(v)
@@ -234,11 +257,14 @@ def run_torus(w, h, tier, acc):
                                 "tie-break %r: BFS distance %d, must reach %r"
                                 % (s3, d3, w, h, v, choices, truth, d),
                                 size=w * h)
-                        vectors.add(tuple(v))
-                    if tier == "quick" and (ks, kd) not in NOISE_REPS:
+                        if ok:
+                            vectors.add(tuple(v))
+                    if tier == "quick" and (ks, kd) not in (
+                            NOISE_REPS[:1] if narrow else NOISE_REPS):
                         continue
                     n = with_owned_random(
-                        lambda: geometry.shortest_torus_path(s3, d3, w, h),
+                        lambda: guarded(geometry.shortest_torus_path,
+                                        s3, d3, w, h),
                         judge, acc)
                     acc.outcome("torus_path_vectors=%d" % len(vectors))
                     if ks == 0 and kd == 0:
@@ -269,7 +295,8 @@ def run_mesh(tier, acc):
                         acc.evaluations += 2
                         if (dx, dy) != (0, 0):
                             acc.nontrivial += 1
-                        got = geometry.shortest_mesh_path_length(s3, d3)
+                        got = guarded(geometry.shortest_mesh_path_length,
+                                      s3, d3)
                         if got != truth:
                             acc.violation(
                                 dict(kind="mesh_length"),
@@ -277,8 +304,10 @@ def run_mesh(tier, acc):
                                 "shortest_mesh_path_length(%r,%r)=%r, BFS "
                                 "distance %d" % (s3, d3, got, truth),
                                 size=abs(dx) + abs(dy))
-                        v = tuple(geometry.shortest_mesh_path(s3, d3))
-                        if (sum(abs(c) for c in v) != truth or
+                        v = guarded(lambda: tuple(
+                            geometry.shortest_mesh_path(s3, d3)))
+                        if (not isinstance(v, tuple) or
+                                sum(abs(c) for c in v) != truth or
                                 proj(v) != (dx, dy)):
                             acc.violation(
                                 dict(kind="mesh_path"),
@@ -287,7 +316,8 @@ def run_mesh(tier, acc):
                                 "%d, difference %r" % (s3, d3, v, truth,
                                                        (dx, dy)),
                                 size=abs(dx) + abs(dy))
-                        if ks == 0 and kd == 0 and base == (0, 0) and \
+                        if isinstance(v, tuple) and ks == 0 and kd == 0 \
+                                and base == (0, 0) and \
                                 abs(dx) <= 5 and abs(dy) <= 5:
                             check_ldf(acc, v, (2, 1), None, None, case)
     # minimise_xyz on every small triple
@@ -316,8 +346,9 @@ def run_links(tier, acc):
         vecs[l] = v
         o = l.opposite
         bad = None
-        if Links.from_vector(v) != l:
-            bad = "from_vector(to_vector(%r)) = %r" % (l, Links.from_vector(v))
+        if guarded(Links.from_vector, v) != l:
+            bad = "from_vector(to_vector(%r)) = %r" % (
+                l, guarded(Links.from_vector, v))
         elif o.to_vector() != (-v[0], -v[1]):
             bad = "%r.opposite = %r whose vector is not the negation" % (l, o)
         elif o.opposite != l or not isinstance(o, Links):
@@ -350,7 +381,7 @@ def run_links(tier, acc):
                         vx, vy = vecs[l]
                         bx, by = (x + vx) % w, (y + vy) % h
                         raw = (bx - x, by - y)
-                        got = Links.from_vector(raw)
+                        got = guarded(Links.from_vector, raw)
                         if got != l:
                             acc.violation(
                                 dict(kind="links_from_vector_wrap"),
@@ -394,7 +425,8 @@ def run_hexagons(tier, acc):
 def run_shard(params, tier, acc):
     k = params["kind"]
     if k == "torus":
-        run_torus(params["w"], params["h"], tier, acc)
+        run_torus(params["w"], params["h"], tier, acc,
+                  bool(params.get("narrow")))
     elif k == "mesh":
         run_mesh(tier, acc)
     elif k == "links":
